@@ -34,7 +34,7 @@ import sys
 from .. import ops, keys
 from ..core import Violation, Precondition
 from ..domains import Domain, is_mapping, is_tree, FAMILIES
-from . import common, cmpfault
+from . import common, cmpfault, ranges
 
 PROP = "C16"
 SHRINK = [["ops"]]
@@ -103,6 +103,12 @@ def plan(rng, tier):
     meths = ranges.MAP_METHS if mapping else ranges.SET_METHS
     n = rng.randint(30, 90) if tier == "quick" else rng.choice([60, 120, 250])
     slots = 0
+    # "hold" runs: lazy sequences stay open ACROSS mutations and go on being
+    # probed (what they answer is C15's business; here the memory they read
+    # counts); the per-call ledger pauses while a sequence that was mutated
+    # under is open (it may own leaves the tree has dropped) and is
+    # evaluated again when the sequences are closed
+    hold = rng.random() < 0.3
     # finalizer re-entry: fresh objects with a __del__ that reads the
     # container are stored where nothing else references them, so they die
     # inside the operation that drops them
@@ -128,6 +134,13 @@ def plan(rng, tier):
         elif r < 0.12:
             b = ranges._bound(rng, g, allow_special=False)
             op = [rng.choice(["minKey", "maxKey"]), b]
+        elif hold and slots and r < 0.05:
+            op = ["seqclose"]
+        elif hold and slots and 0.36 <= r < 0.52:
+            op = ["seqprobe", rng.randrange(2),
+                  rng.choice([["idx", rng.randint(-len(g.model.d) - 1,
+                                                  len(g.model.d))],
+                              ranges._probes(rng, len(g.model.d))[0]])]
         elif r < 0.16:
             op = ["seqopen", slots % 2] + ranges._range_op(rng, g, meths)[1:]
             if op[2].startswith("iter"):
@@ -176,6 +189,12 @@ def plan(rng, tier):
             # read-only operation (everything evicted right before it)
             op = ["@loadfail", rng.randint(1, 6),
                   rng.choice(["err", "poskey"]), op]
+        elif slots and op[0] in MUTATING and rng.random() < 0.3:
+            # a held lazy sequence is used once more right after this
+            # mutation (what it answers is C15's business; here only the
+            # memory it reads and the references it takes count)
+            op = ["@thenprobe", rng.randrange(2),
+                  ranges._probes(rng, len(g.model.d))[:3], op]
         elif hk and rng.random() < 0.12:
             op = ["@raise", rng.randrange(1 << 16), op]
         elif hk and cfg["stored"] and rng.random() < 0.25:
@@ -193,10 +212,24 @@ def plan(rng, tier):
                 out.append(["sweep", rng.choice(["minimize", "incrgc",
                                                  "some"]),
                             rng.randrange(1 << 16)])
-    return {"cfg": cfg, "ops": out, "fin": fin}
+    return {"cfg": cfg, "ops": out, "fin": fin, "hold": hold}
+
+
+MUTATING = ("set", "del", "pop", "popd", "popitem", "update", "clear", "add",
+            "remove", "discard", "spop", "supdate", "ior", "iand", "isub",
+            "ixor", "setdefault", "insert", "sinsert")
 
 
 def simplify(plan):
+    if plan.get("hold"):
+        p = copy.deepcopy(plan)
+        p["hold"] = False
+        yield p
+    for i, o in enumerate(plan["ops"]):
+        if o[0] == "@thenprobe":
+            p = copy.deepcopy(plan)
+            p["ops"][i] = o[3]
+            yield p
     if plan.get("fin"):
         p = copy.deepcopy(plan)
         p["fin"] = None
@@ -447,6 +480,8 @@ def execute(plan, ctx):
         conn = SimConnection(SimStorage(cfg.get("protocol", 3)), "c")
         conn.add(c)
     seqs = {}
+    hold = bool(plan.get("hold"))
+    dirty = False
     live = [(c, mapping)]
     fin = plan.get("fin")
     fv0, fk0 = keys.FV.live, keys.FK.live
@@ -518,8 +553,22 @@ def execute(plan, ctx):
                     ctx.fault("evict-between")
                 ctx.ev(name)
                 continue
+            if name == "seqclose":
+                seqs.clear()
+                if dirty and not stored:
+                    dirty = False
+                    _ledger(tracked, baseline, live, dom,
+                            dict(base, op="seqclose", outcome="ok"),
+                            "after closing the held sequences")
+                dirty = False
+                continue
             op = op0
             fault = None
+            thenprobe = None
+            if name == "@thenprobe":
+                thenprobe = op0
+                op = op0[3]
+                name = op[0]
             if name == "@raise":
                 op = op0[2]
                 fault = op0[1]
@@ -544,6 +593,13 @@ def execute(plan, ctx):
             out = _do(c, op, dom, kind, seqs, live)
             fired = hook.fired
             hook.disarm()
+            if thenprobe is not None:
+                sq = seqs.get(thenprobe[1])
+                if sq is not None:
+                    for pr in thenprobe[2]:
+                        ranges._run_probe(sq, pr)
+                    ctx.fault("mutate-under-cursor")
+                sq = None
             if name == "@loadfail" and conn is not None:
                 if conn.load_fault is None:
                     ctx.fault("load-fail")
@@ -576,8 +632,12 @@ def execute(plan, ctx):
                 # a held lazy sequence keeps leaves alive; after a mutation
                 # those may be leaves the tree no longer owns -- close them
                 # so that the ledger's walk sees every live slot
-                seqs.clear()
-            if not stored:
+                if hold and seqs:
+                    dirty = True
+                    ctx.fault("mutate-under-cursor")
+                else:
+                    seqs.clear()
+            if not stored and not dirty:
                 _ledger(tracked, baseline, live, dom,
                         dict(base, op=opn, outcome=out),
                         "after %r -> %s" % (op, out))
